@@ -302,7 +302,7 @@ func (d *PathDecoder) decodeReferenceTargetsForAttribute(attr *hcl.Attribute, at
 				}
 			}
 
-			if attrSchema.Address.AsReference {
+			if ok && attrSchema.Address.AsReference {
 				ref := reference.Target{
 					Addr:          attrAddr,
 					ScopeId:       attrSchema.Address.ScopeId,
